@@ -16,13 +16,14 @@ set_option autoImplicit false
 namespace Mkdb.Store
 open Mkdb.Page Mkdb.Tuple Mkdb.Generated Mkdb.Tree Mkdb.Engine
 
-/-- **Base case of `PtSelf`**: the row of `sys_pages` in the page table names the page table's root -/
+/-- **Base case of `PtSelf`**: the row of `sys_pages` in the page table names the page table's root
+(its only page) -/
 theorem ptNew_self : PtSelf ptNew := by
   intro off hm
   rw [ptNew_entries] at hm
   simp only [List.mem_cons, Prod.mk.injEq, List.not_mem_nil, or_false] at hm
   rcases hm with ⟨_, rfl⟩ | ⟨h, _⟩
-  · rfl
+  · decide
   · rw [sysPages_eq, sysSchema_eq] at h
     exact absurd h (by decide)
 
